@@ -417,30 +417,29 @@ func runC15(c *core.Ctx) {
 				}
 			}
 			if ok {
-				// a nil digest is returned only together with an error the path has found non-nil
-				if ps, err := paths.Enumerate(fn, paths.Config{}); err != nil {
-					ok, why = false, "path enumeration failed: "+err.Error()
-				} else {
-					for _, p := range ps {
-						if p.Aborted != "" || len(p.Results) != 2 {
-							ok, why = false, "a path of the helper is not analysable"
+				// a nil digest is returned only together with an error found non-nil on the way (dominating branch edges, so that
+				// a helper that writes its parts in a loop is judged too)
+				for _, b := range fn.Blocks {
+					ret, isR := b.Instrs[len(b.Instrs)-1].(*ssa.Return)
+					if !isR || len(ret.Results) != 2 || !paths.IsNilConst(ret.Results[0]) {
+						continue
+					}
+					established := false
+					for x := b; x != nil && x.Idom() != nil; x = x.Idom() {
+						d := x.Idom()
+						ifi, isIf := d.Instrs[len(d.Instrs)-1].(*ssa.If)
+						if !isIf || d.Succs[0] == d.Succs[1] {
 							continue
 						}
-						if !paths.IsNilConst(p.Results[0]) {
-							continue
-						}
-						established := false
-						for _, e := range p.Events {
-							if e.Kind != paths.EvBranch {
-								continue
-							}
-							if subj, neq, isNil := nilTest(e.Cond); isNil && neq == e.Taken && e.Resolve(subj) == p.Results[1] {
+						if subj, neq, isNil := nilTest(ifi.Cond); isNil && subj == ret.Results[1] {
+							vt, vf := viaEdge(d, x)
+							if (neq && vt) || (!neq && vf) {
 								established = true
 							}
 						}
-						if !established {
-							ok, why = false, "a path returns no digest although no error has been found on it: the login is sent with an empty authenticator"
-						}
+					}
+					if !established {
+						ok, why = false, "a path returns no digest although no error has been found on it: the login is sent with an empty authenticator"
 					}
 				}
 			}
